@@ -71,6 +71,7 @@ type Walker struct {
 	Inline      bool                    // translate calls of one-line boolean helpers through InlineHook (opt-in per rule)
 	subst       map[types.Object]string // parameter -> rendered argument while a boolean helper is inlined
 	inlineDepth int
+	mutObj      map[string]types.Object // path -> synthetic object whose version counts in-place mutations of that path
 	baseInfo    *types.Info
 	// AtCalls is scratch space for rules: facts recorded at calls of interest.
 	AtCalls []CallFact
@@ -156,6 +157,32 @@ func (w *Walker) isLocal(o types.Object) bool {
 // Path gives a canonical string for an expression; local variables carry
 // their current version.
 func (w *Walker) Path(e ast.Expr) string {
+	base := w.pathBase(e)
+	switch ast.Unparen(e).(type) {
+	case *ast.Ident, *ast.SelectorExpr, *ast.IndexExpr:
+		// a path that was mutated in place since (s.Intersection(t)) is a new value: it carries a tick
+		if o, ok := w.mutObj[base]; ok && w.ver[o] > 0 {
+			return fmt.Sprintf("%s'%d", base, w.ver[o])
+		}
+	}
+	return base
+}
+
+// Mutated records that the value denoted by e was changed in place.
+func (w *Walker) Mutated(e ast.Expr) {
+	base := w.pathBase(e)
+	if w.mutObj == nil {
+		w.mutObj = map[string]types.Object{}
+	}
+	o, ok := w.mutObj[base]
+	if !ok {
+		o = types.NewVar(token.NoPos, nil, "mut:"+base, types.Typ[types.Int])
+		w.mutObj[base] = o
+	}
+	w.bump(o)
+}
+
+func (w *Walker) pathBase(e ast.Expr) string {
 	switch x := e.(type) {
 	case nil:
 		return ""
@@ -210,6 +237,9 @@ func (w *Walker) Path(e ast.Expr) string {
 	return types.ExprString(e)
 }
 
+// MutatorHook, when set, names the expression a statement-level call mutates in place (nil: none).
+var MutatorHook func(info *types.Info, call *ast.CallExpr) ast.Expr
+
 // NameHook, when set, gives the name under which functions and struct fields are written in paths and atoms (the
 // reference name of a renamed function or field, see core/refnames.go): rules that match an atom against a name
 // then keep matching after a rename.
@@ -232,10 +262,14 @@ func selName(o types.Object, written string) string {
 
 // PathOfVar gives the canonical path of a variable object at its current version.
 func (w *Walker) PathOfVar(v *types.Var) string {
+	base := v.Name()
 	if w.isLocal(v) {
-		return fmt.Sprintf("%s#%d", v.Name(), w.ver[v])
+		base = fmt.Sprintf("%s#%d", v.Name(), w.ver[v])
 	}
-	return v.Name()
+	if o, ok := w.mutObj[base]; ok && w.ver[o] > 0 {
+		return fmt.Sprintf("%s'%d", base, w.ver[o])
+	}
+	return base
 }
 
 func (w *Walker) copyVer() map[types.Object]int {
@@ -735,6 +769,13 @@ func (w *Walker) stmt(s ast.Stmt, f Formula) Formula {
 	switch x := s.(type) {
 	case *ast.ExprStmt:
 		w.expr(x.X, f)
+		// a call that mutates its receiver in place (a result-less method of a set type): what was known about the
+		// receiver - `s.IsEmpty()` tested before `s.Intersection(t)` - is no longer known after it
+		if call, ok := x.X.(*ast.CallExpr); ok && MutatorHook != nil {
+			if target := MutatorHook(w.Info, call); target != nil {
+				w.Mutated(target)
+			}
+		}
 	case *ast.AssignStmt:
 		for _, r := range x.Rhs {
 			w.expr(r, f)
@@ -966,6 +1007,9 @@ func (w *Walker) ifStmt(x *ast.IfStmt, f Formula) Formula {
 	if x.Else != nil {
 		elseFacts = w.stmt(x.Else, MkAnd(f, MkNot(c)))
 		elseTerm = w.stmtTerminates(x.Else)
+	} else {
+		// the implicit empty else arm is a path of its own: its states are refined with its facts before the join
+		w.refine(elseFacts)
 	}
 	elseVer := w.ver
 	w.cur |= thenOut
